@@ -36,7 +36,7 @@ TRefused   == Ev("Refused")  /\ Refused /\ UNCHANGED <<idle, wslink>>
 TAppWrote  == Ev("AppWrote") /\ AppWrite(Rec[l].n) /\ UNCHANGED <<idle, wslink>>
 TTgtWrote  == Ev("TgtWrote") /\ TgtWrite(Rec[l].n) /\ UNCHANGED <<idle, wslink>>
 TAppClose  == Ev("AppClose") /\ AppClose(Rec[l].how) /\ UNCHANGED <<idle, wslink>>
-TTgtClose  == Ev("TgtClose") /\ TgtClose(Rec[l].how) /\ UNCHANGED <<idle, wslink>>
+TTgtClose  == Ev("TgtClose") /\ TgtCloseA(Rec[l].how, "acked" \in DOMAIN Rec[l] /\ Rec[l].acked) /\ UNCHANGED <<idle, wslink>>
 TFault     == Ev("Fault")    /\ Fault /\ UNCHANGED <<idle, wslink>>
 TDial      == Ev("Dial")     /\ Dial(Rec[l].lis) /\ UNCHANGED <<idle, wslink>>
 TTgtGot    == Ev("TgtGot")   /\ DeliverUp(Rec[l].n, Rec[l].ok) /\ UNCHANGED <<idle, wslink>>
